@@ -69,6 +69,7 @@ def items(tier):
             for jobs in (2, 3):
                 for kinds in (["cmd"] * n, ["exp"] * n):
                     out.append({"case": {"g": g, "kinds": kinds, "pars": [True] * n, "jobs": jobs, "fails": {str(failing): ["launch"]}}, "bound": 1})
+                    out.append({"case": {"g": g, "kinds": kinds, "pars": [True] * n, "jobs": jobs, "fails": {str(failing): ["execfail"]}}, "bound": 1})
     # every 4- and 5-task graph in every listing order, all completion orders
     for g in rungrid.graphs_upto((4, 5)):
         out.append({"case": {"g": g, "kinds": ["cmd"] * len(g), "pars": [True] * len(g), "jobs": 2, "fails": {}}, "bound": 0})
